@@ -197,7 +197,8 @@ Inductive op :=
   | OReadAll                               (* read() / read(-1) / readall() *)
   | OExhaust
   | OReadLine (lim : option N)
-  | OReadLines (hint : option N).
+  | OReadLines (hint : option N)
+  | OIter.                                 (* list(stream) / a for loop: __next__ = readline() until it returns nothing *)
 
 Definition step (s : ls) (u : und) (o : op) : out * ls * und :=
   match o with
@@ -207,6 +208,7 @@ Definition step (s : ls) (u : und) (o : op) : out * ls * und :=
   | OExhaust => exhaust s u
   | OReadLine lim => readline lim s u
   | OReadLines hint => readlines hint s u
+  | OIter => readlines None s u
   end.
 
 (* every operation is attempted, also after an exception (the stream object stays usable);
@@ -235,6 +237,40 @@ Definition delivered (o : out) : bytes :=
   | OkInto n b => takeN n b
   | OkLines l => concat l
   | Exn _ => []
+  end.
+
+(* LimitedStream.tell() (generated body: C09/Gen.v) *)
+Definition tell (s : ls) : N := Z.to_N (tell_gen (Z.of_N (pos s))).
+
+(* ------------------------------------------------------------------ a buffering wrapper as a consumer
+   io.BufferedReader / io.TextIOWrapper (and anything else written against io.RawIOBase) only ever
+   call readinto with buffers of their own choosing and readall, keep what they obtained in a
+   private buffer in order, and hand the application pieces from the front of that buffer.
+   WFill: one raw readinto of the given size into either buffer kind (a result of 0 bytes is the
+   end-of-stream signal of the RawIOBase contract; readinto never returns None here);
+   WFillAll: raw.readall(); WTake n: deliver the first n buffered bytes to the application.
+   The run stops at the first exception, which the wrapper propagates. *)
+Inductive wop := WFill (kind : bufkind) (size : N) | WFillAll | WTake (n : N).
+Fixpoint wrun (s : ls) (u : und) (buf : bytes) (ops : list wop)
+  : list bytes * bytes * option exn * ls * und :=
+  match ops with
+  | [] => ([], buf, None, s, u)
+  | WFill kind size :: r =>
+    match readinto s u kind (zerosN size) with
+    | (OkInto n b, s', u') => wrun s' u' (buf ++ takeN n b) r
+    | (Exn e, s', u') => ([], buf, Some e, s', u')
+    | (_, s', u') => ([], buf, Some TypeErrorE, s', u')       (* not a readinto result: unreachable *)
+    end
+  | WFillAll :: r =>
+    match readall s u with
+    | (OkB d, s', u') => wrun s' u' (buf ++ d) r
+    | (Exn e, s', u') => ([], buf, Some e, s', u')
+    | (_, s', u') => ([], buf, Some TypeErrorE, s', u')
+    end
+  | WTake n :: r =>
+    match wrun s u (dropN n buf) r with
+    | (l, b', e, s', u') => (takeN n buf :: l, b', e, s', u')
+    end
   end.
 
 (* the same run with the unrepaired slice assignment (b[:out_size] = temp_b), kept to state the
